@@ -340,6 +340,20 @@ impl Gen {
                 let others: Vec<usize> = live.iter().copied().filter(|x| *x != client).collect();
                 let server = *r.pick(&others);
                 let f = &mut self.rng_fault;
+                // the production client loop over the nodes' real endpoints
+                let p_wire = if cfg.focus == "C04" { 0.3 } else if cfg.focus == "C05" || cfg.focus == "C08" { 0.15 } else { 0.06 };
+                if f.chance(p_wire) {
+                    let mut servers = vec![server];
+                    if others.len() >= 2 && f.chance(0.35) {
+                        for o in others.iter() {
+                            if *o != server && f.chance(0.7) {
+                                servers.push(*o);
+                            }
+                        }
+                    }
+                    servers.sort();
+                    return Some(Event::WireSync { client, servers });
+                }
                 let mut faults = SyncFaults {
                     stale: f.chance(0.15),
                     split10: f.chance(0.3),
